@@ -79,7 +79,7 @@ def check_datagram(c, label, entry, b, isserver, payload, ts):
     c.ensure(label + ".timestamp", ets == ts if c.native else c.same_object(ets, ts) or c.prove(ets == ts))
 
 
-@harness(["C02", "C06", "C07", "C13", "C08", "C03"], "quic_out.build", functions=[QOB + ".build"],
+@harness(["C02", "C06", "C07", "C13", "C08", "C03", "C18"], "quic_out.build", functions=[QOB + ".build"],
          cases=[(v6, md) for v6 in (False, True) for md in (False, True)])
 def h_qbuild(c, ipv6, metadata):
     if c.native:
@@ -122,6 +122,7 @@ def h_qbuild(c, ipv6, metadata):
                 c.ensure("step.new_datagram.only_if_other_timestamp", c.prove(fts_ != snap["ts"]))
                 c.ensure("step.new_datagram.exactly_one_flushed", len(new) == 1)
                 check_datagram(c, "step.flushed", new[0], b, c.concrete_bool(snap["isserver"]), snap["packets"], snap["ts"])
+                c.ensure("step.flushed.timestamp_is_a_capture_time", new[0][1] is not None)
                 c.ensure("step.new_datagram.group_restarts", eq(e.packets.val, data) and c.prove(e.ts == fts_)
                          and c.prove(eq(e.isserver, fsrv_)))
                 c.cover("step.flushed")
@@ -129,7 +130,9 @@ def h_qbuild(c, ipv6, metadata):
             snap["exit"] = (e.packets.val, e.ts, e.isserver)
 
     c.loop(QOB + ".build", "for frame in self.decrypted_traffic",
-           invariant=lambda e: band(c.is_bool(e.isserver), True),
+           # the group's timestamp is always a capture time (a number the reader produced), never "no timestamp": the pcapng writer
+           # stamps a packet handed over without one with the wall clock, and the export would differ from run to run (C18)
+           invariant=lambda e: band(c.is_bool(e.isserver), e.ts is not None),
            havoc={"self.out": lambda cur: [], "data": lambda cur: None, "packet": lambda cur: None,
                   # the remembered packet number: any byte string, or None (Version Negotiation packets have none)
                   "pn": lambda cur: None if c.nondet("pn_is_none") else c.bytes_fresh("pn_state", 0, 4)}, ghost_step=ghost)
@@ -143,6 +146,7 @@ def h_qbuild(c, ipv6, metadata):
     if len(res) == 1 and "exit" in snap:
         pk, ts, srv = snap["exit"]
         check_datagram(c, "final_flush", res[0], b, c.concrete_bool(srv), pk, ts)
+        c.ensure("final_flush.timestamp_is_a_capture_time", res[0][1] is not None)
     c.cover("returned")
 
 
@@ -209,6 +213,7 @@ def h_qbuild_native(c, ipv6, metadata):
     c.ensure("step.flushed.payload", [g[2] for g in got] == [w[2] for w in want])
     c.ensure("step.flushed.timestamp", [g[0] for g in got] == [w[0] for w in want])
     c.ensure("step.flushed.direction", [g[1] for g in got] == [w[1] for w in want])
+    c.ensure("step.flushed.timestamp_is_a_capture_time", all(g[0] is not None for g in got))
 
 
 @harness(["C06", "C03"], "quic_out.build_output", functions=[QS + ".build_output"], cases=[("empty",), ("nonempty",)])
